@@ -26,9 +26,9 @@ PLAN = {
                 thorough=[("linux", "R1", None), ("linux", "I1", None), ("linux", "I2", None), ("linux", "I3", None)]),
     "C18": dict(mode="merge", tags={"C18"}, crash_is_violation=True,
                 quick=[("asa", "M1", None), ("ios", "M1", None), ("linux", "M1", None), ("panos", "M1", None), ("nsx", "M1", None),
-                       ("asa", "M2L", 4000), ("ios", "M2L", 4000), ("panos", "M2", None)],
+                       ("asa", "M2L", 4000), ("ios", "M2L", 4000), ("panos", "M2", None), ("nsx", "M2", None)],
                 thorough=[("asa", "M1", None), ("ios", "M1", None), ("linux", "M1", None), ("panos", "M1", None), ("nsx", "M1", None),
-                          ("asa", "M2L", None), ("ios", "M2L", None), ("panos", "M2", None)]),
+                          ("asa", "M2L", None), ("ios", "M2L", None), ("panos", "M2", None), ("nsx", "M2", None)]),
     "C16": dict(mode="det", tags={"C16"}, spec="DetTrace", level="exploration",
                 quick=[("asa", "F9", 5000), ("asa", "F2", 2000), ("asa", "F7", 1000), ("ios", "F8", 1000),
                        ("ios", "F3", 1000), ("ios", "V1L", 800), ("panos", "P2", 1500), ("linux", "I1", 500), ("nsx", "N1", 1500), ("nsx", "N3", None),
@@ -89,7 +89,7 @@ IOS_FAMS["M1"] = {"MaxLen": 3}
 ASA_FAMS["M2L"] = {"MaxLen": 3}
 IOS_FAMS["M2L"] = {"MaxLen": 3}
 PANOS_FAMS = {"M2": {"MaxLen": 3}, "M1": {"MaxLen": 3}, "P1": {"MaxLen": 3}, "P2": {"MaxLen": 2}, "P3": {"MaxLen": 2}, "P7": {"MaxLen": 2}}
-NSX_FAMS = {"M1": {"MaxLen": 3}, "N1": {"MaxLen": 3}, "N2": {"MaxLen": 2}, "N3": {"MaxLen": 3}}
+NSX_FAMS = {"M2": {"MaxLen": 3}, "M1": {"MaxLen": 3}, "N1": {"MaxLen": 3}, "N2": {"MaxLen": 2}, "N3": {"MaxLen": 3}}
 FAM_CONSTS = {"asav": {"F5": {"MaxLen": 3}, "F6L": {"MaxLen": 3}}, "asa": ASA_FAMS, "ios": IOS_FAMS, "linux": LINUX_FAMS, "panos": PANOS_FAMS, "nsx": NSX_FAMS}
 
 
